@@ -80,6 +80,11 @@ def run(ctx: common.Ctx):
         tasks.append({"seed": ctx.seed, "index": i, "profile": "default",
                       "max_runs": 3000 if ctx.thorough else 300,
                       "nrandom": 40 if ctx.thorough else 10, "max_traces": 40 if ctx.thorough else 12})
+    # hand-built families (reuse / fan-in / data wrappers / same array / node kinds / same tag)
+    fam = list(G.families())
+    for sp in (fam if ctx.thorough else fam[::3]):
+        tasks.append({"seed": 0, "index": sp["index"], "profile": sp["profile"], "spec": sp,
+                      "max_runs": 300, "nrandom": 6, "max_traces": 10})
     try:
         results = distwork.run_pool(distwork.c08_unit, tasks,
                                     deadline_s=3000 if ctx.thorough else 600)
@@ -110,7 +115,7 @@ def run(ctx: common.Ctx):
             if v:
                 dist[f"pattern:{k}"] += 1
         replay_base = {"program": {"seed": t["seed"], "index": t["index"], "profile": t["profile"]},
-                       "spec": G.generate(t["seed"], t["index"], t["profile"])}
+                       "spec": t.get("spec") or G.generate(t["seed"], t["index"], t["profile"])}
         if res.get("rejected"):
             dist["rejected"] += 1
             sig = reject_signature(res["ranks"], res["patterns"])
